@@ -127,9 +127,11 @@ private:
     static std::string peer_key_string(const PeerId& peer_id);
     bool replace_session(const PeerId& peer_id, const std::shared_ptr<Session>& session);
 
-    static bool send_all(SocketHandle socket, const std::uint8_t* data, std::size_t length);
+    static bool send_all(SocketHandle socket, const std::uint8_t* data, std::size_t length,
+                         std::optional<std::chrono::steady_clock::time_point> deadline = std::nullopt);
     static bool recv_all(SocketHandle socket, std::uint8_t* buffer, std::size_t length);
     static bool set_recv_timeout(SocketHandle socket, std::chrono::milliseconds timeout);
+    static bool set_send_timeout(SocketHandle socket, std::chrono::milliseconds timeout);
     static void close_socket(SocketHandle socket);
     static void close_session_socket(const std::shared_ptr<Session>& session);
     static bool configure_socket(SocketHandle socket, bool server_mode);
